@@ -37,6 +37,7 @@ def required_cells(tier):
             "energy-offset:+20": 2, "energy-offset:-20": 2,
             "energy-offset:+35": 2, "preused_correlations": 10,
             "shared-parameters-across-temperatures": 2,
+            "band_limited_j": 5,
             "two-baths-from-one-updated-correlations-object": 2}
 
 
@@ -114,6 +115,20 @@ def run_case(case):
 
     def gibbs(h, pp=p, params=gp):
         corr = gen.make_power_law(pp) if i % 2 else gen.make_custom_sd(pp)
+        if i % 2 == 0 and pp["cutoff_type"] == "hard":
+            # a density that is DEFINED only inside its band (a tabulated /
+            # semicircular J): nan above the hard cutoff, where nothing may
+            # be evaluated
+            a_, z_, wc_ = pp["alpha"], pp["zeta"], pp["cutoff"]
+
+            def jband(w):
+                if w > wc_:
+                    return float("nan")
+                return 2.0 * a_ * w ** z_ * wc_ ** (1 - z_)
+            corr = oqupy.CustomSD(np.vectorize(jband, otypes=[float]),
+                                  cutoff=wc_, cutoff_type="hard",
+                                  temperature=pp["temperature"])
+            monitors["band_limited_j"] = 1
         if preused:
             # the same correlations object has answered REAL-time questions
             # for exactly the arguments the imaginary-time network will ask
